@@ -142,7 +142,7 @@ def real_sel(costs):
     return pi, out, problems
 
 
-def real_gr(p, pop_c, new_c):
+def real_gr(p, pop_c, new_c, pooled=0):
     from ..harness import mk_agent, Scripted, BaseOptimizationConfig
     out, problems = [], []
     pop = [mk_agent(i, c) for i, c in enumerate(pop_c)]
@@ -167,6 +167,16 @@ def real_gr(p, pop_c, new_c):
     except IndexError:
         out.append([999])
     if ids(new) != ids(fnew): problems.append("_greedy_select_population mutated the challenger list")
+    if pooled and len(new) >= len(pop) and pop:
+        # the same selection through a real thread pool (any completion order): the same agents must be kept, slot by slot on the sorted lists
+        from ..harness import ModeSolver
+        o = inst(); o._mode = ModeSolver("thread"); o._workers = pooled
+        o._greedy_select_population(list(new))
+        sp, sn = sorted(pop, key=lambda a: a.cost), sorted(new, key=lambda a: a.cost)
+        want = sorted((sn[i] if sn[i].cost < sp[i].cost else sp[i]).cost for i in range(len(sp)))
+        got = sorted(a.cost for a in o._population)
+        if got != want:
+            problems.append(f"greedy population in thread mode ({pooled} workers): kept costs {got}, expected {want}")
     o = inst(); o._extend_and_trim_population(new); out.append(ids(o._population))
     if ids(new) != ids(fnew): problems.append("_extend_and_trim_population mutated the challenger list")
     merged = sorted(pop + new, key=lambda a: a.cost)
@@ -232,9 +242,10 @@ def run(ctx, info):
         pc = [r.choice(alpha) for _ in range(np_)]
         nc = [r.choice(alpha) for _ in range(nn)]
         p = r.randint(0, 8)
-        out, problems = real_gr(p, pc, nc)
+        pooled = r.choice([1, 2, 4]) if k % 4 == 0 else 0
+        out, problems = real_gr(p, pc, nc, pooled=pooled)
         for pr in problems:
-            ctx.violation(f"greedy:{pr.split(':')[0][:40]}", pr, {"kind": "gr", "p": p, "pop": [c.hex() for c in pc], "new": [c.hex() for c in nc], "problem": pr})
+            ctx.violation(f"greedy:{pr.split(':')[0][:40]}", pr, {"kind": "gr", "p": p, "pop": [c.hex() for c in pc], "new": [c.hex() for c in nc], "pooled": pooled, "problem": pr})
         items.append(f"Gr {p} {coqlist([xlit(c) for c in pc])} {coqlist([xlit(c) for c in nc])} {coqlist([natlist(o) for o in out])}")
         metas.append({"kind": "gr", "p": p, "pop": [c.hex() for c in pc], "new": [c.hex() for c in nc]})
         nontrivial.add(("gr", p, tuple(pc), tuple(nc)))
@@ -259,7 +270,7 @@ def replay(rep):
     if r["kind"] == "sel":
         _, out, problems = real_sel([float.fromhex(c) for c in r["costs"]])
     else:
-        out, problems = real_gr(r["p"], [float.fromhex(c) for c in r["pop"]], [float.fromhex(c) for c in r["new"]])
+        out, problems = real_gr(r["p"], [float.fromhex(c) for c in r["pop"]], [float.fromhex(c) for c in r["new"]], pooled=r.get("pooled", 0))
     print("outputs:", out)
     print("problems:", problems)
     return 1 if problems else 0
